@@ -290,7 +290,9 @@ impl CrashLens {
             let _ = rt.block_on(c.flush_unsaved_buffer(&s1, &t1, 1, false));
             let (mut after, mut cur2) = read(&c)?;
             if scn.cfg.confirmation == "no_wait" {
-                for _ in 0..100 {
+                // (generous: on a loaded machine, with fsync, the background persister may take long; only a message that
+                //  never becomes readable is a finding)
+                for _ in 0..10_000 {
                     if after.len() > before.len() {
                         break;
                     }
